@@ -29,7 +29,7 @@ RULE = ("one run = a drawn expression over + - * / max min consumption productio
         "corrupted value delivered; distinct = abstract digest of (corruption kind, stream) sequence")
 QUICK_RUNS = 5000
 THOROUGH_RUNS = 300_000
-EXPECT_PROBES = ["overflow_to_none", "missing_in_max_min_rhs", "missing_in_max_min_lhs", "division_by_zero", "missing_as_zero",
+EXPECT_PROBES = ["staggered_starts", "overflow_to_none", "missing_in_max_min_rhs", "missing_in_max_min_lhs", "division_by_zero", "missing_as_zero",
                  "sub_engine_none_as_zero"]
 
 CORRUPT = ["ok", "none", "nan", "+inf", "-inf", "zero", "huge+", "huge-"]
@@ -121,6 +121,8 @@ async def _run_formula(sim: Sim, spec: dict[str, Any], table: list[list[float | 
     for k in range(rounds):
         order = schedule[k] if schedule else list(range(n))
         for i in order:
+            if k < spec["starts"][i]:
+                continue
             await txs[i].send(fc.make_sample(sim, k, table[i][k]))
             if schedule and sim.ch.chance("yield", 0.3):
                 await asyncio.sleep(0)
@@ -163,7 +165,13 @@ def scenario(sim: Sim) -> None:
                 sim.ev("corrupt", f"{i}:{c}", k)
             row.append(c)
         kinds.append(row)
-    spec = dict(n=n, rounds=rounds, kind=kind, tree=tree, leaf_naz=leaf_naz, top_naz=top_naz)
+    starts = [0] * n
+    if n > 1 and ch.chance("staggered_starts", 0.3):
+        starts = [min(ch.choice("start", [0, 0, 1, 2, 4]), rounds - 3) for _ in range(n)]
+        if len(set(starts)) > 1:
+            sim.probe("staggered_starts")
+    tstar = max(starts)
+    spec = dict(n=n, rounds=rounds, kind=kind, tree=tree, leaf_naz=leaf_naz, top_naz=top_naz, starts=starts)
     sim.config.update(kind=kind, formula=fc.tree_str(tree), leaf_naz=leaf_naz, top_naz=top_naz, rounds=rounds)
     sim.ev("formula", fc.tree_str(tree), kind, leaf_naz, top_naz)
     sim.note(f"formula {fc.tree_str(tree)} kind={kind} leaf_naz={leaf_naz} top_naz={top_naz}")
@@ -187,8 +195,8 @@ def scenario(sim: Sim) -> None:
             e = Expect(sim, [kinds[i][k] for i in range(n)], leaf_naz, kind == "composed")
             m, _ = e.node(tree, top_naz)
             expects.append((m, e.reasons))
-        if got_ts != list(range(rounds)):
-            missing_ts = [k for k in range(rounds) if k not in got_ts]
+        if got_ts != list(range(tstar, rounds)):
+            missing_ts = [k for k in range(tstar, rounds) if k not in got_ts]
             extra = [k for k in got_ts if got_ts.count(k) > 1]
             cause = "other"
             if missing_ts and all("/:zero_divisor" in expects[k][1] for k in missing_ts) and not extra:
@@ -206,7 +214,7 @@ def scenario(sim: Sim) -> None:
                 sim.soft_violation("finite_or_none", sigbase,
                                    f"T={k}: the formula emitted the non-finite value {v} (inputs "
                                    f"{[(i, kinds[i][k]) for i in range(n) if kinds[i][k] != 'ok']}); expected None")
-        for k in range(rounds):
+        for k in range(tstar, rounds):
             if k not in byts:
                 continue
             if any(kinds[i][k].startswith("huge") for i in range(n)):
